@@ -2,6 +2,9 @@
 Line-protocol executor for the model (DESIGN §3.2).  Reads one operation per line on stdin,
 prints one canonical result line per operation — the same line `harness exec` prints from the
 real crate.  Imports only `LC.Model.*` (import-free of Mathlib/Std), so it links natively.
+The pure codec (`tokenize`, `decTerm`, `showTerm`, `orderOf`, `resTerm`, ...) lives in `LC/Drv/Codec.lean` (namespace `Drv`),
+where it is total and proved faithful (`LC/Proofs/DriverCodec*.lean`, `LC/Props/TieCodec.lean`); the line executor
+`Drv.exec` lives in `LC/Drv/Ops1.lean` (and `LC/Drv/Ops2.lean`).  This file is only the read-print loop.
 -/
 import LC.Model.Term
 import LC.Model.Subst
@@ -9,196 +12,12 @@ import LC.Model.Reduce
 import LC.Model.Encode
 import LC.Model.Parser
 import LC.Model.Display
-import LC.Drv.Ops2
+import LC.Drv.Codec
+import LC.Drv.Ops1
 
 open LC LC.Term
 
 namespace Drv
-
-/-- fuel for the traversals: bounds the depth of the call tree; a `none` is reported as
-`fuel` and counted inconclusive by the checker, never as a result -/
-def FUEL : Nat := 200000
-
-partial def encTerm (t : Term) (acc : String) : String :=
-  match t with
-  | .var n => acc ++ toString n
-  | .abs b => encTerm b (acc ++ "L ")
-  | .app l r => encTerm r (encTerm l (acc ++ "A ") ++ " ")
-
-def showTerm (t : Term) : String := encTerm t ""
-
-/-- parse one term from a token list (prefix words) -/
-partial def decTerm : List String → Option (Term × List String)
-  | [] => none
-  | "L" :: rest => do
-    let (b, rest') ← decTerm rest
-    pure (.abs b, rest')
-  | "A" :: rest => do
-    let (l, r1) ← decTerm rest
-    let (r, r2) ← decTerm r1
-    pure (.app l r, r2)
-  | n :: rest => do
-    let k ← n.toNat?
-    pure (.var k, rest)
-
-/-- `usize::MAX` on the 64-bit targets the harness runs on -/
-def USIZE_MAX : Nat := 18446744073709551615
-
-/-- does the term contain `var 0` (UD)? -/
-def hasUD01 : Term → Bool
-  | .var i => i == 0
-  | .abs b => hasUD01 b
-  | .app l r => hasUD01 l || hasUD01 r
-
-def orderOf : String → Option Order
-  | "NOR" => some .NOR | "CBN" => some .CBN | "HSP" => some .HSP | "HNO" => some .HNO
-  | "APP" => some .APP | "CBV" => some .CBV | "HAP" => some .HAP | _ => none
-
-def errName : TermError → String
-  | .NotVar => "NotVar" | .NotAbs => "NotAbs" | .NotApp => "NotApp"
-
-def resTerm : Except TermError Term → String
-  | .ok t => "ok " ++ showTerm t
-  | .error e => "err " ++ errName e
-
-def resNat : Except TermError Nat → String
-  | .ok n => "ok " ++ toString n
-  | .error e => "err " ++ errName e
-
-def resPair : Except TermError (Term × Term) → String
-  | .ok (l, r) => "ok " ++ showTerm l ++ " , " ++ showTerm r
-  | .error e => "err " ++ errName e
-
-def b01 (b : Bool) : String := if b then "1" else "0"
-
-/-- run a history of reduce calls -/
-def runHist : List (Order × Nat) → Term → String → Option String
-  | [], t, acc => some (acc ++ showTerm t)
-  | (o, l) :: rest, t, acc =>
-    match reduce o l FUEL t with
-    | some (t', c) => runHist rest t' (acc ++ toString c ++ " ")
-    | none => none
-
-partial def parseCalls : Nat → List String → Option (List (Order × Nat) × List String)
-  | 0, ts => some ([], ts)
-  | n+1, o :: l :: ts => do
-    let o' ← orderOf o
-    let l' ← l.toNat?
-    let (cs, rest) ← parseCalls n ts
-    pure ((o', l') :: cs, rest)
-  | _, _ => none
-
-partial def decTerms : Nat → List String → Option (List Term × List String)
-  | 0, ts => some ([], ts)
-  | n+1, ts => do
-    let (t, r) ← decTerm ts
-    let (more, r') ← decTerms n r
-    pure (t :: more, r')
-
-def exec (line : String) : String :=
-  let toks := (line.splitOn " ").filter (· ≠ "")
-  match toks with
-  | "apply" :: rest =>
-    (do
-      let (t, r1) ← decTerm rest
-      let (a, _) ← decTerm r1
-      -- the receiver after the call is part of the answer: on Err it must be the receiver before the call
-      pure (match Term.applyMut t a with
-        | (t', .ok ()) => "ok " ++ showTerm t'
-        | (t', .error e) => if t' == t then "err " ++ errName e else "err " ++ errName e ++ " CHANGED " ++ showTerm t')).getD "bad-op"
-  -- boundary operations: indices close to usize::MAX.  The crate refuses (panics) to create an index above usize::MAX;
-  -- for a single substitution that happens exactly when the model's (unbounded) result contains such an index
-  | "applyb" :: rest =>
-    (do
-      let (t, r1) ← decTerm rest
-      let (a, _) ← decTerm r1
-      pure (match Term.apply t a with
-        | .ok t' => if Term.maxIndex t' > USIZE_MAX then "PANIC" else "ok " ++ showTerm t'
-        | .error e => "err " ++ errName e)).getD "bad-op"
-  | "reduceb" :: o :: rest =>
-    (do
-      let o' ← orderOf o
-      let (t, _) ← decTerm rest
-      pure (match reduce o' 1 FUEL t with
-        | some (t', c) => if Term.maxIndex t' > USIZE_MAX then "PANIC" else toString c ++ " " ++ showTerm t'
-        | none => "fuel")).getD "bad-op"
-  | "reduce" :: o :: l :: rest =>
-    (do
-      let o' ← orderOf o
-      let l' ← l.toNat?
-      let (t, _) ← decTerm rest
-      pure (match reduce o' l' FUEL t with
-        | some (t', c) => toString c ++ " " ++ showTerm t'
-        | none => "fuel")).getD "bad-op"
-  | "beta" :: o :: l :: rest =>
-    (do
-      let o' ← orderOf o
-      let l' ← l.toNat?
-      let (t, _) ← decTerm rest
-      pure (match beta t o' l' FUEL with
-        | some t' => showTerm t'
-        | none => "fuel")).getD "bad-op"
-  | "hist" :: n :: rest =>
-    (do
-      let n' ← n.toNat?
-      let (calls, r1) ← parseCalls n' rest
-      let (t, _) ← decTerm r1
-      pure ((runHist calls t "").getD "fuel")).getD "bad-op"
-  | "pred" :: rest =>
-    (do
-      let (t, _) ← decTerm rest
-      -- the supercombinator bit is only part of the answer for terms without UD (C18's quantifier)
-      let sc := if hasUD01 t then "-" else b01 t.isSupercombinator
-      pure (b01 t.hasFreeVariables ++ " " ++ sc ++ " " ++ toString t.maxDepth)).getD "bad-op"
-  | "iso" :: rest =>
-    (do
-      let (t, r1) ← decTerm rest
-      let (u, _) ← decTerm r1
-      pure (b01 (t.isIsomorphicTo u))).getD "bad-op"
-  | "acc" :: rest =>
-    (do
-      let (t, _) ← decTerm rest
-      let fam (uv : Except TermError Nat) (ua : Except TermError Term) (up : Except TermError (Term × Term))
-          (lh rh : Except TermError Term) : String :=
-        resNat uv ++ " | " ++ resTerm ua ++ " | " ++ resPair up ++ " | " ++ resTerm lh ++ " | " ++ resTerm rh
-      pure (fam t.unvar t.unabs t.unapp t.lhs t.rhs ++ " | " ++
-            fam t.unvarRef t.unabsRef t.unappRef t.lhsRef t.rhsRef ++ " | " ++
-            fam t.unvarMutGet t.unabsMutGet t.unappMutGet t.lhsMutGet t.rhsMutGet ++ " | unchanged 1")).getD "bad-op"
-  | "put" :: which :: rest =>
-    (do
-      let (t, r1) ← decTerm rest
-      match which with
-      | "unvar" => do
-        let v ← (← r1.head?).toNat?
-        pure (resTerm (t.unvarMutPut v))
-      | "unabs" => do
-        let (v, _) ← decTerm r1
-        pure (resTerm (t.unabsMutPut v))
-      | "lhs" => do
-        let (v, _) ← decTerm r1
-        pure (resTerm (t.lhsMutPut v))
-      | "rhs" => do
-        let (v, _) ← decTerm r1
-        pure (resTerm (t.rhsMutPut v))
-      | "unapp" => do
-        let (v1, r2) ← decTerm r1
-        let (v2, _) ← decTerm r2
-        pure (resTerm (t.unappMutPut (v1, v2)))
-      | _ => none).getD "bad-op"
-  | "mapp" :: k :: rest =>
-    (do
-      let k' ← k.toNat?
-      let (ts, _) ← decTerms (k' + 1) rest
-      match ts with
-      | t0 :: more => pure (showTerm (appMany t0 more))
-      | [] => none).getD "bad-op"
-  | "mabs" :: n :: rest =>
-    (do
-      let n' ← n.toNat?
-      let (t, _) ← decTerm rest
-      pure (showTerm (absN n' t))).getD "bad-op"
-  | ["udconst"] => showTerm Term.UD
-  | _ => Drv2.exec2 toks
 
 partial def loop (h : IO.FS.Stream) (out : IO.FS.Stream) : IO Unit := do
   let line ← h.getLine
